@@ -57,12 +57,33 @@ fn is_rect(fragments: &[&Fragment]) -> bool {
             let line_b2 = fragments[b2].as_line().expect("expecting a line");
             line_a1.is_touching_aabb_perpendicular(line_b1)
                 && line_a2.is_touching_aabb_perpendicular(line_b2)
+                && is_closed_outline(fragments)
         } else {
             false
         }
     } else {
         false
     }
+}
+
+/// the lines form the outline of the rectangle that will be drawn for them
+/// only if every endpoint is a corner of the bounding box of all the endpoints.
+/// Lines that merely touch (ladders, overhanging sides) must not become a rect.
+fn is_closed_outline(fragments: &[&Fragment]) -> bool {
+    let points: Vec<_> = fragments
+        .iter()
+        .flat_map(|frag| {
+            let (p1, p2) = frag.bounds();
+            [p1, p2]
+        })
+        .collect();
+    let min_x = points.iter().map(|p| p.x).fold(f32::INFINITY, f32::min);
+    let max_x = points.iter().map(|p| p.x).fold(f32::NEG_INFINITY, f32::max);
+    let min_y = points.iter().map(|p| p.y).fold(f32::INFINITY, f32::min);
+    let max_y = points.iter().map(|p| p.y).fold(f32::NEG_INFINITY, f32::max);
+    points.iter().all(|p| {
+        (p.x == min_x || p.x == max_x) && (p.y == min_y || p.y == max_y)
+    })
 }
 
 /// qualifications:
